@@ -10,3 +10,47 @@ pub type RusticResult<T> = Result<T, Box<RusticError>>;
 #[verifier::external_body]
 pub fn verr() -> (e: Box<RusticError>)
 { unimplemented!() }
+
+// --- `.map_err(|err| <build error>)`: extraction rewrite R-maperr maps it to `.vmap_err()`:
+// Ok values pass through unchanged, every Err becomes an opaque error.
+pub trait VMapErr<T>: Sized { // keep-vis
+    spec fn ok_part(self) -> Option<T>;
+    fn vmap_err(self) -> (r: Result<T, Box<RusticError>>)
+        ensures r is Ok <==> self.ok_part() is Some,
+                r matches Ok(v) ==> self.ok_part() == Some(v);
+}
+impl<T, E> VMapErr<T> for Result<T, E> {
+    open spec fn ok_part(self) -> Option<T> { match self { Ok(v) => Some(v), Err(_) => None } }
+    #[verifier::external_body]
+    fn vmap_err(self) -> (r: Result<T, Box<RusticError>>) { unimplemented!() }
+}
+
+// --- integer TryInto: rewrite `.try_into()` -> `.vtry_into()`; Ok iff the value fits, value preserved
+pub struct ConvErr { pub _opaque: u8 }
+pub trait VTryInto<U>: Sized { // keep-vis
+    spec fn vfits(self) -> bool;
+    spec fn vconv(self) -> U;
+    fn vtry_into(self) -> (r: Result<U, ConvErr>)
+        ensures r is Ok <==> self.vfits(),
+                r matches Ok(v) ==> v == self.vconv();
+}
+impl VTryInto<u32> for usize {
+    open spec fn vfits(self) -> bool { self <= 0xFFFF_FFFF }
+    open spec fn vconv(self) -> u32 { self as u32 }
+    fn vtry_into(self) -> (r: Result<u32, ConvErr>) { if self <= 0xFFFF_FFFF { Ok(self as u32) } else { Err(ConvErr { _opaque: 0 }) } }
+}
+impl VTryInto<u64> for usize {
+    open spec fn vfits(self) -> bool { true }
+    open spec fn vconv(self) -> u64 { self as u64 }
+    fn vtry_into(self) -> (r: Result<u64, ConvErr>) { Ok(self as u64) }
+}
+impl VTryInto<usize> for u64 {
+    open spec fn vfits(self) -> bool { true }
+    open spec fn vconv(self) -> usize { self as usize }
+    fn vtry_into(self) -> (r: Result<usize, ConvErr>) { Ok(self as usize) }
+}
+impl VTryInto<u32> for u64 {
+    open spec fn vfits(self) -> bool { self <= 0xFFFF_FFFF }
+    open spec fn vconv(self) -> u32 { self as u32 }
+    fn vtry_into(self) -> (r: Result<u32, ConvErr>) { if self <= 0xFFFF_FFFF { Ok(self as u32) } else { Err(ConvErr { _opaque: 0 }) } }
+}
